@@ -8,6 +8,22 @@ COMMON_TB = [
 ]
 
 PROPS = {
+    "C06": {
+        "level_text": "Lean 4 theorems over a two-actor transition system (producer emitting n frames with a micro-program over lock / publish / record / unlock; subscriber doing subscribe, then snapshot under the same lock, then history ++ live filtered by seq): for each join-safe emit order, every n and EVERY interleaving, the subscriber delivers 0..n-1 exactly once in order; the producer is independent of subscribers; the snapshot is never blocked forever. The emit orders and handler orders are REGENERATED from the current source by the translator ripx on every run, and the obligations 'the session emitter / task emitter / every continuity append has a join-safe shape' and 'every handler subscribes before its snapshot' are re-proved by decide on the regenerated tables. Tied further by controlled-schedule correspondence: the real emitters and the real GET .../events handlers are single-stepped through yield points (cfg rip_verif) for every (subscribe, snapshot) position on short streams and random schedules on longer ones, all three stream kinds; delivered seqs must equal the model's and the observed point trace must match the generated order. A subscriber lagging more than the channel capacity loses frames: recorded known finding.",
+        "level_note": "Lean kernel; tokio broadcast (FIFO delivery to receivers subscribed at send time) and tokio Mutex are modelled, not verified; the model's channel is unbounded (capacity is the known finding); ripx is trusted to report the order of the effect calls it recognises (cross-checked dynamically against the yield-point trace on every run).",
+        "technique": "Lean 4 proof (inductive invariant over all interleavings) + decide over regenerated effect-order tables + controlled-schedule correspondence",
+        "design_ref": "§5 C06",
+        "trusted_base": COMMON_TB + [
+            "translator ripx (syn): effect-order extraction for emit_event, TaskEmitter::emit, the 11 continuity append functions and the 3 SSE handlers; fails closed",
+            "modelled, not verified: tokio::sync::broadcast semantics, tokio::sync::Mutex",
+            "hooks: yield points emit.lock/emit.publish/emit.record, store.*, sse.subscribe/sse.snapshot; VerifApp export",
+        ],
+        "assumptions": [
+            "the subscriber does not lag more than the broadcast channel capacity (16 384 frames) — violated executions are the known finding C06|lag>capacity",
+            "no preemption inside one effect call",
+        ],
+        "gen": ["EffectOrder", "Consts"],
+    },
     "C12": {
         "level_text": "Lean 4 theorems over an executable model of the patch engine (byte-level parser, hunk application, file system with directories, undo list and revert): exactness on success for every workspace state and operation list (result = in-order fold of the operation semantics; changed files = sorted, de-duplicated named files), parser totality and path confinement, hunk locality; all-or-nothing on failure via the undo invariant (theorem `atomic`, see evidence for whether it is included in this build). Tied to the code by differential correspondence: the same (workspace, patch document) pairs run through rip-workspace in a scratch directory and through the compiled model, full tree (files, bytes, directories), result and error class compared; plus implementation oracles for all-or-nothing and changed-files.",
         "level_note": "Lean kernel; model hand-written, validated by the correspondence check; std::fs semantics (exists/read/write/create_dir_all/remove_file/rename on files vs directories, trailing-slash spellings) are modelled, not verified; symlinks, I/O errors during rollback and concurrent external writers are outside the model.",
